@@ -1,8 +1,87 @@
-import DarkluaModel.Util.Sexp
-/-! Line-protocol handlers for property C08 (stub: nothing modelled yet). -/
-namespace DarkluaModel.C08
+import DarkluaModel.Shared.AstSexp
+import DarkluaModel.Rules.EvaluatorFloat
+import DarkluaModel.C08.Model
+/-!
+Line-protocol handlers for property C08 (the evaluator model over IEEE doubles):
 
-def handle (op : String) (_args : List String) : String :=
-  "unknown-op " ++ op
+* `c08.eval <expr>`   → `(<value> <sideEffects> <sideEffects with pure metamethods> <multi>)`
+                        value ::= nil | true | false | (num f<bits>) | (str x<hex>) | table | function | unknown
+* `c08.h <expr>`      → `(<h8> <tag>*)` — is the expression inside the proved region; the tags name the
+                        failing conditions (`numeq` F1/F2, `numfmt` F3, `interp` F4, `refeq`)
+* `c08.coerce x<hex>` → `(num f<bits>)` | `none` — `LuaValue::String(bytes).number_coercion()`
+* `c08.fmt f<bits>`   → `x<hex>` — `f64::to_string`
+* `c08.semnum f<bits>`→ `x<hex>` — the reference semantics' `tostring` of a number (diagnostics)
+-/
+namespace DarkluaModel.C08
+open DarkluaModel.Evaluator
+
+def valueToSexp : LuaValue floatOps → Sexp
+  | .nil => .atom "nil"
+  | .true_ => .atom "true"
+  | .false_ => .atom "false"
+  | .number x => .list [.atom "num", .atom (floatToWire x)]
+  | .string s => .list [.atom "str", .atom (bytesToHex s)]
+  | .table => .atom "table"
+  | .function => .atom "function"
+  | .unknown => .atom "unknown"
+
+/-- diagnostics: which conditions of `h8` fail somewhere in `e` (same traversal as `h8`) -/
+partial def why (e : Expr) : List String :=
+  let E := floatEvalOps
+  match e with
+  | .bin op l r =>
+    why l ++ why r ++
+      (match op with
+       | .eq | .ne =>
+         (if numEqOK E (evaluate E l) (evaluate E r) then [] else ["numeq"]) ++
+         (if refEqOK E l r then [] else ["refeq"])
+       | .concat => if concatOK E (evaluate E l) (evaluate E r) then [] else ["numfmt"]
+       | _ => [])
+  | .un _ e => why e
+  | .paren e => why e
+  | .ifx c t elifs e => why c ++ why t ++ elifs.flatMap (fun (a, b) => why a ++ why b) ++ why e
+  | .interp segs =>
+    segs.flatMap fun
+      | .s _ => []
+      | .v e => why e ++ (if !isUnknown (evaluate E e) || hasSideEffects E false e then [] else ["interp"])
+  | .cast e _ => why e
+  | .inst e _ => why e
+  | .table entries =>
+    entries.flatMap fun
+      | .pos v => why v
+      | .named _ v => why v
+      | .keyed k v => why k ++ why v
+  | _ => []
+
+def handle (op : String) (args : List String) : String :=
+  match op, Sexp.parseArgs args with
+  | "eval", some [e] =>
+    match Expr.ofSexp? e with
+    | some e =>
+      (Sexp.list [valueToSexp (evaluate floatEvalOps e),
+        Sexp.ofBool (hasSideEffects floatEvalOps false e),
+        Sexp.ofBool (hasSideEffects floatEvalOps true e),
+        Sexp.ofBool (canReturnMultiple e)]).toString
+    | none => "bad-request"
+  | "h", some [e] =>
+    match Expr.ofSexp? e with
+    | some e => (Sexp.list (Sexp.ofBool (h8 floatEvalOps e) :: (why e).map Sexp.atom)).toString
+    | none => "bad-request"
+  | "coerce", some [.atom s] =>
+    match hexToBytes? s with
+    | some bs =>
+      match coerceString floatEvalOps bs with
+      | some x => (Sexp.list [.atom "num", .atom (floatToWire x)]).toString
+      | none => "none"
+    | none => "bad-request"
+  | "fmt", some [.atom s] =>
+    match wireToFloat? s with
+    | some x => bytesToHex (fmtRustFloat x)
+    | none => "bad-request"
+  | "semnum", some [.atom s] =>
+    match wireToFloat? s with
+    | some x => bytesToHex (floatToStr x)
+    | none => "bad-request"
+  | _, _ => "unknown-op " ++ op
 
 end DarkluaModel.C08
